@@ -58,8 +58,22 @@ func MappingJSON(run *Run, name, defs string, terms []string) []map[string]any {
 }
 
 func rawPost(id, pkg, svc, target string, body []byte, resp *dynamicpb.Message) map[string]any {
+	return rawPostCT(id, pkg, svc, target, body, resp, "application/json")
+}
+
+// c05ContentTypes: request Content-Type values that are neither binary protobuf nor exactly
+// "application/json"; the emitted server treats every one of them as JSON (generator.go
+// bindDataBasedOnContentType / marshalResponse: "Default to JSON for unrecognized content types"),
+// so the response must have the same mapped form.  "" = no Content-Type header.
+var c05ContentTypes = []string{"", "application/json; charset=utf-8", "text/plain", "application/vnd.api+json", "application/x-www-form-urlencoded", "APPLICATION/JSON"}
+
+func rawPostCT(id, pkg, svc, target string, body []byte, resp *dynamicpb.Message, ct string) map[string]any {
+	hdrs := [][2]string{}
+	if ct != "" {
+		hdrs = append(hdrs, [2]string{"Content-Type", ct})
+	}
 	sc := map[string]any{"id": id, "kind": "raw", "pkg": pkg, "service": svc, "verb": "POST", "target": target,
-		"headers": [][2]string{{"Content-Type", "application/json"}}, "script": map[string]any{}}
+		"headers": hdrs, "script": map[string]any{}}
 	if body != nil {
 		sc["body"] = hex.EncodeToString(body)
 	}
@@ -145,6 +159,20 @@ func CheckC05(run *Run) {
 			scen = append(scen, rawPost(fmt.Sprintf("q%d", i), c.req.ID, c.svc, c.path, RenderCanonJSON(j), nil))
 		}
 	}
+	type ctSlot struct {
+		ci, scen int
+		ct       string
+	}
+	var ctSlots []ctSlot
+	for i, c := range cases {
+		if c.label != "full" {
+			continue
+		}
+		for k, ct := range c05ContentTypes {
+			ctSlots = append(ctSlots, ctSlot{ci: i, scen: len(scen), ct: ct})
+			scen = append(scen, rawPostCT(fmt.Sprintf("c%d.%d", i, k), c.req.ID, c.svc, c.path, nil, c.val, ct))
+		}
+	}
 	directed := []directedBody{
 		{"ftbytes", "Blob", `{"h":"abc"}`, "HEX field given base64 text of odd length"},
 		{"ftbytes", "Blob", `{"h":"q83v"}`, "HEX field given text that is not hexadecimal"},
@@ -200,7 +228,8 @@ func CheckC05(run *Run) {
 				body, _ = hex.DecodeString(o.RespBodyHex)
 				j, err := CanonJSONText(body)
 				if err != nil {
-					run.Fatal("response body is not JSON: %v: %s", err, body)
+					obs["resp"] = map[string]any{"not_json": true}
+					break
 				}
 				jsrv, encoded = j, true
 				ft.AddJSONText(body)
@@ -262,6 +291,49 @@ func CheckC05(run *Run) {
 			reqRes = append(reqRes, cr)
 			reqCases = append(reqCases, CoqCase{Term: fmt.Sprintf("(sc_%d, %s, %s, %s, %s, %s)", defIdx[c.req.ID], CoqStr(c.msg), term, CoqJSON(Canon(jm)), p, st), Obs: obs})
 		}
+	}
+	// ---------- the same response under other request content types
+	for _, cs := range ctSlots {
+		c := cases[cs.ci]
+		canon, term := MsgCanon(c.val)
+		o := obsOf(cs.scen)
+		ft := NewFloatTabs()
+		ft.AddMessage(c.val)
+		obs := map[string]any{}
+		var body []byte
+		var jsrv any
+		encoded := false
+		switch {
+		case o.Panic != "" || o.Timeout:
+			obs["resp"] = map[string]any{"panic": true}
+		case o.Status == 200:
+			body, _ = hex.DecodeString(o.RespBodyHex)
+			j, err := CanonJSONText(body)
+			if err != nil {
+				obs["resp"] = map[string]any{"not_json": true}
+				break
+			}
+			jsrv, encoded = j, true
+			ft.AddJSONText(body)
+			obs["resp"] = okObj(j)
+		default:
+			obs["resp"] = errObj()
+		}
+		cr := &CaseResult{ID: fmt.Sprintf("%s/%s#%d:%s:ct=%q", c.req.ID, c.msg, cs.ci, c.label, cs.ct), Family: "response-content-type",
+			Input: map[string]any{"schema": c.req.ID, "message": c.msg, "value": canon, "mapping": c.mapRes, "body": string(body), "request_content_type": cs.ct},
+			Obs:   obs, NonTrivial: true, Features: append(msgFeatures(c.req, c.msg), "ct:"+cs.ct), OracleHolds: true}
+		if jm, ok := c.mapRes["ok"]; ok {
+			if !encoded {
+				cr.OracleHolds, cr.OracleNote = false, "the server cannot encode a value the mapping defines"
+			} else if d := Diff(Canon(jsrv), Canon(jm)); d != "" {
+				cr.OracleHolds, cr.OracleNote = false, "response body differs from the documented mapping at "+d
+			}
+		} else if _, isErr := c.mapRes["err"]; isErr && encoded {
+			cr.OracleHolds, cr.OracleNote = false, "the mapping rejects the value but the server encodes it"
+		}
+		p, st := ft.Coq()
+		respRes = append(respRes, cr)
+		respCases = append(respCases, CoqCase{Term: fmt.Sprintf("(sc_%d, %s, %s, %s, %s)", defIdx[c.req.ID], CoqStr(c.msg), term, p, st), Obs: obs})
 	}
 	vr, err := CoqRun(run.WorkDir, "c05resp", codecImports, defs, "c04_case", "predict_C05_resp", respCases, 16)
 	if err != nil {
